@@ -23,22 +23,18 @@
     The machine-level whole-history theorem now exists (end of this file,
     Db/Machine.v + Db/MachineProofs.v; the post-PRAGMA decisions of the machine
     are compared with db.go by the [machine_ck] entry of Db/MachineEntry.v):
-    [acked_sync_restores] holds for every finite interleaving of application
-    commits/checkpoints with litestream's syncs and its checkpoint protocol in
-    all four modes (one DB object, Open ... Close, no error exits), for the
-    control flow as fixed by /repo commits 80a5b27 and 6edd82b, assuming the
-    per-commit environment rules [tx_ok] (last frame is the commit frame, the
-    lock page is never written, a growing transaction writes every new page),
-    the wal.c locking rules built into the step guards, and [window_ok]: no
-    commit restarts (and no TRUNCATE empties) the WAL between the header
-    re-read after a FULL/RESTART PRAGMA and the header read of the copy that
-    follows it (that window is REFUTED:
-    [full_checkpoint_post_copy_window_refuted]; with the PROPOSED re-read of the
-    header after that copy, [recheck = true], no side condition is left:
-    [acked_sync_restores_recheck]).  PASSIVE/TRUNCATE histories need no such
-    condition ([acked_sync_restores_passive_truncate]).  The control flows
-    before each fix are REFUTED ([full_checkpoint_window_refuted], midcheck =
-    false; [full_checkpoint_post_pragma_window_refuted], postcopy = false).
+    [acked_sync_restores] holds, with NO side condition, for every finite
+    interleaving of application commits/checkpoints with litestream's syncs and
+    its checkpoint protocol in all four modes (one DB object, Open ... Close, no
+    error exits), for checkpointWithExecutor as it stands in /repo after commits
+    80a5b27, 6edd82b and bb88a29.  It assumes only the per-commit environment
+    rules [tx_ok] (last frame is the commit frame, the lock page is never
+    written, a growing transaction writes every new page) and the wal.c locking
+    rules built into the step guards.  The control flows before each of the
+    three commits are REFUTED with explicit histories (F14, F15, F16, all
+    confirmed on the implementation): [full_checkpoint_window_refuted],
+    [full_checkpoint_post_pragma_window_refuted],
+    [full_checkpoint_post_copy_window_refuted].
     Close/Open of the same object and new processes (F2) are outside the machine. *)
 From Coq Require Import List NArith Bool.
 From LS Require Import Db.Image.
@@ -114,44 +110,32 @@ From LS Require Import Db.Machine Db.MachineProofs.
 (** [acks s] is the ghost log of acknowledgements: (number of level-0 files,
     committed image, "nothing was lost") at each instant a sync returned nil with
     the cursor at the end of the live WAL generation ([ack_records_committed]).
-    The three booleans of [step]/[run]/[steps_ok]/[steps_window] select the
-    control flow of checkpointWithExecutor: [midcheck] = /repo commit 80a5b27,
-    [postcopy] = /repo commit 6edd82b, [recheck] = the proposed re-read of the
-    header after the post-checkpoint copy (not in /repo).  [true true false] is
-    /repo as it stands. *)
+    The three booleans of [step]/[run]/[steps_ok] select the control flow of
+    checkpointWithExecutor: [midcheck] = /repo commit 80a5b27 (header re-read
+    after a FULL/RESTART PRAGMA), [postcopy] = 6edd82b (copy after that re-read),
+    [recheck] = bb88a29 (header re-read after that copy).  [true true true] is
+    /repo HEAD. *)
 Theorem acked_sync_restores :
-  forall (data : Type) (zero : data) (lock : N) (s0 : state data) (ls : list (label data)) (s : state data),
-  init_ok data zero lock s0 ->
-  run data lock true true false s0 ls = Some s ->
-  steps_ok data lock true true false s0 ls ->
-  steps_window data lock true true false s0 ls ->
-  forall n im b, In (n, im, b) (acks data s) ->
-  img_eq data (restore data zero lock (firstn n (l0 data s))) im.
-Proof. intros data zero lock. exact (MachineProofs.acked_sync_restores_lemma data zero lock false). Qed.
-Print Assumptions acked_sync_restores.
-
-(** PASSIVE and TRUNCATE checkpoints only (what checkpointIfNeeded issues): no side condition *)
-Theorem acked_sync_restores_passive_truncate :
-  forall (data : Type) (zero : data) (lock : N) (s0 : state data) (ls : list (label data)) (s : state data),
-  init_ok data zero lock s0 ->
-  run data lock true true false s0 ls = Some s ->
-  steps_ok data lock true true false s0 ls ->
-  forallb (label_pt data) ls = true ->
-  forall n im b, In (n, im, b) (acks data s) ->
-  img_eq data (restore data zero lock (firstn n (l0 data s))) im.
-Proof. intros data zero lock. exact (MachineProofs.acked_sync_restores_passive_truncate data zero lock false). Qed.
-Print Assumptions acked_sync_restores_passive_truncate.
-
-(** with the proposed re-read: all four modes, every interleaving, no side condition *)
-Theorem acked_sync_restores_recheck :
   forall (data : Type) (zero : data) (lock : N) (s0 : state data) (ls : list (label data)) (s : state data),
   init_ok data zero lock s0 ->
   run data lock true true true s0 ls = Some s ->
   steps_ok data lock true true true s0 ls ->
   forall n im b, In (n, im, b) (acks data s) ->
   img_eq data (restore data zero lock (firstn n (l0 data s))) im.
-Proof. exact MachineProofs.acked_sync_restores_recheck. Qed.
-Print Assumptions acked_sync_restores_recheck.
+Proof. exact MachineProofs.acked_sync_restores_head. Qed.
+Print Assumptions acked_sync_restores.
+
+(** with the re-read of bb88a29 the one of 80a5b27 is not needed for C01 (it
+    still avoids a level-0 file copied from a restarted WAL before the snapshot) *)
+Theorem acked_sync_restores_first_read_redundant :
+  forall (data : Type) (zero : data) (lock : N) (s0 : state data) (ls : list (label data)) (s : state data),
+  init_ok data zero lock s0 ->
+  run data lock false true true s0 ls = Some s ->
+  steps_ok data lock false true true s0 ls ->
+  forall n im b, In (n, im, b) (acks data s) ->
+  img_eq data (restore data zero lock (firstn n (l0 data s))) im.
+Proof. exact MachineProofs.acked_sync_restores_first_read_redundant. Qed.
+Print Assumptions acked_sync_restores_first_read_redundant.
 
 Theorem ack_records_committed :
   forall (data : Type) (lock : N) (midcheck postcopy recheck : bool) (s s' : state data),
@@ -162,8 +146,8 @@ Theorem ack_records_committed :
 Proof. exact MachineProofs.ack_records_committed. Qed.
 Print Assumptions ack_records_committed.
 
-(** any control flow, no side condition: acknowledgements taken while no
-    generation was reset under unreplicated transactions *)
+(** any control flow: acknowledgements taken while no generation was reset
+    under unreplicated transactions *)
 Theorem acked_sync_restores_unless_lost :
   forall (data : Type) (zero : data) (lock : N) (midcheck postcopy recheck : bool)
          (s0 : state data) (ls : list (label data)) (s : state data),
@@ -192,18 +176,22 @@ Theorem dinv_reachable :
 Proof. exact MachineProofs.dinv_reachable. Qed.
 Print Assumptions dinv_reachable.
 
-(** the read mark, the PASSIVE barrier, the unconditional TRUNCATE snapshot, the
-    header re-read and the post-checkpoint copy keep the cursor from being lost
-    outside control states that end in a boundary snapshot *)
+(** the read mark, the PASSIVE barrier, the unconditional TRUNCATE snapshot and,
+    for FULL/RESTART, the header re-reads around the post-checkpoint copy keep
+    the cursor from being lost outside control states that end in a boundary
+    snapshot *)
 Theorem pinned_never_lost :
   forall (data : Type) (zero : data) (lock : N) (s0 : state data) (ls : list (label data)) (s : state data),
-  init_ok data zero lock s0 -> run data lock true true false s0 ls = Some s ->
-  steps_ok data lock true true false s0 ls ->
-  steps_window data lock true true false s0 ls ->
+  init_ok data zero lock s0 -> run data lock true true true s0 ls = Some s ->
+  steps_ok data lock true true true s0 ls ->
   cur data s = Lost ->
   l0 data s = [] \/ MachineSafe.pendingb (pc data s) = true \/ MachineSafe.closedb (pc data s) = true \/
-  MachineSafe.lost_okb false (pc data s) (gen data s) = true.
-Proof. intros data zero lock. exact (MachineProofs.pinned_never_lost data zero lock false). Qed.
+  MachineSafe.lost_okb true (pc data s) (gen data s) = true.
+Proof.
+  intros data zero lock s0 ls s Hi E Hok.
+  apply (MachineProofs.pinned_never_lost data zero lock true true (or_introl eq_refl) s0 ls s Hi E Hok).
+  apply MachineProofs.steps_window_recheck.
+Qed.
 Print Assumptions pinned_never_lost.
 
 Theorem verify_sound_pinned :
@@ -218,8 +206,7 @@ Theorem verify_sound_pinned :
 Proof. exact MachineProofs.verify_sound_pinned. Qed.
 Print Assumptions verify_sound_pinned.
 
-(** the control flow BEFORE commit 80a5b27: F14, confirmed on the implementation
-    by the harness scenarios ckpt-window:FULL|RESTART *)
+(** F14, repaired by 80a5b27: the control flow before it (scenarios ckpt-window:FULL|RESTART) *)
 Theorem full_checkpoint_window_refuted :
   exists (s0 : state N) ls s n im b,
     init_ok N 0%N 1000%N s0 /\ run N 1000%N false false false s0 ls = Some s /\
@@ -229,8 +216,7 @@ Theorem full_checkpoint_window_refuted :
 Proof. exact MachineProofs.full_checkpoint_window_refuted. Qed.
 Print Assumptions full_checkpoint_window_refuted.
 
-(** with 80a5b27 but BEFORE commit 6edd82b: F15, confirmed by the scenarios
-    ckpt-post-pragma-window:FULL|RESTART *)
+(** F15, repaired by 6edd82b (scenarios ckpt-post-pragma-window:FULL|RESTART) *)
 Theorem full_checkpoint_post_pragma_window_refuted :
   exists (s0 : state N) ls s n im b,
     init_ok N 0%N 1000%N s0 /\ run N 1000%N true false false s0 ls = Some s /\
@@ -240,7 +226,7 @@ Theorem full_checkpoint_post_pragma_window_refuted :
 Proof. exact MachineProofs.full_checkpoint_post_pragma_window_refuted. Qed.
 Print Assumptions full_checkpoint_post_pragma_window_refuted.
 
-(** /repo as it stands, without [steps_window]: the remaining FULL/RESTART window *)
+(** F16, repaired by bb88a29 (scenarios ckpt-post-copy-window:FULL|RESTART) *)
 Theorem full_checkpoint_post_copy_window_refuted :
   exists (s0 : state N) ls s n im b,
     init_ok N 0%N 1000%N s0 /\ run N 1000%N true true false s0 ls = Some s /\
@@ -251,21 +237,20 @@ Proof. exact MachineProofs.full_checkpoint_post_copy_window_refuted. Qed.
 Print Assumptions full_checkpoint_post_copy_window_refuted.
 
 (** non-vacuity: Db/MachineProofs.v [ex_run] (two generations, PASSIVE checkpoint,
-    application commit before the barrier), [ex2_run] (TRUNCATE), [fixed_run] and
-    [fixed2_run] (the F14 and F15 histories under the fixed control flow, FULL,
-    satisfying [steps_window]), [fixed3_run] (the remaining window with the
-    proposed re-read) *)
+    application commit before the barrier), [ex2_run] (TRUNCATE), [fixed_run],
+    [fixed2_run], [fixed3_run] (the F14, F15, F16 histories, FULL, under /repo HEAD) *)
 Example machine_example :
-  forall s, run N 1000%N true true false ex_init ex_steps = Some s ->
-  forall n im b, In (n, im, b) (acks N s) ->
-  img_eq N (restore N 0%N 1000%N (firstn n (l0 N s))) im.
-Proof. exact MachineProofs.ex_theorem_applies. Qed.
-
-Example machine_example_full :
-  forall s, run N 1000%N true true false ex_init fixed2_steps = Some s ->
+  forall s, run N 1000%N true true true ex_init ex_steps = Some s ->
   forall n im b, In (n, im, b) (acks N s) ->
   img_eq N (restore N 0%N 1000%N (firstn n (l0 N s))) im.
 Proof.
-  intros s E. eapply (MachineProofs.acked_sync_restores_lemma N 0%N 1000%N false);
-    [exact ex_init_ok|exact E|exact fixed2_steps_ok|exact fixed2_steps_window].
+  intros s E. eapply MachineProofs.acked_sync_restores_head; [exact ex_init_ok|exact E|exact ex_steps_ok].
+Qed.
+
+Example machine_example_full :
+  forall s, run N 1000%N true true true ex_init fixed3_steps = Some s ->
+  forall n im b, In (n, im, b) (acks N s) ->
+  img_eq N (restore N 0%N 1000%N (firstn n (l0 N s))) im.
+Proof.
+  intros s E. eapply MachineProofs.acked_sync_restores_head; [exact ex_init_ok|exact E|exact fixed3_steps_ok].
 Qed.
